@@ -191,6 +191,9 @@ func Child(c *run.Ctx, name string) {
 		mon := gi % 3
 		start := int64(1700000000+r.Intn(2)*86400) * 1e9
 		start = start / 60e9 * 60e9
+		if gi%3 == 1 {
+			start += int64(1+r.Intn(47)) * 1e9 // a window that does not start on a multiple of the range
+		}
 		end := start + int64([]int{20, 60, 600, 3600}[r.Intn(4)])*1e9
 		o := logq.GenOpts{JSONLines: r.Intn(2) == 0, MaxSeries: 5, MaxSamples: 30, StartNs: start, EndNs: end, Numeric: true}
 		if !o.JSONLines {
